@@ -105,6 +105,8 @@ func (o Op) String() string {
 		return "create(" + o.T + ")"
 	case "set":
 		return fmt.Sprintf("set(%s#%d,%s)", o.T, o.A, o.S)
+	case "setnamed":
+		return fmt.Sprintf("set(%s#%d,<%s>)", o.T, o.A, o.S)
 	case "name":
 		return fmt.Sprintf("name+description(%s#%d,%q)", o.T, o.A, o.S)
 	case "arr":
@@ -336,6 +338,15 @@ func (w *world) applyEdit(o Op) bool {
 		}
 		if _, err := w.inst.UpdateParameter(id, []byte(o.S)); err != nil {
 			panic(err)
+		}
+	case "setnamed": // a value of the parameter catalogue, by name
+		id := w.nth(o.T, o.A)
+		msg, ok := catalogueMessage(o.T, o.S)
+		if id == "" || !ok {
+			return false
+		}
+		if _, err := w.inst.UpdateParameter(id, msg); err != nil {
+			return false // the parameter rejects this wire form: not an operation of this history
 		}
 	case "name":
 		id := w.nth(o.T, o.A)
@@ -837,6 +848,7 @@ type explorer struct {
 	c        *core.Ctx
 	alpha    []Op
 	devDepth int
+	scope    string // when set: the evidence scope of every visit (instead of seed/depth)
 }
 
 func (e *explorer) report(cs Case, ps []problem) {
@@ -860,6 +872,9 @@ func (e *explorer) visit(cs Case, owned bool) bool {
 	e.c.Trace()
 	e.c.Transition()
 	scope := fmt.Sprintf("%s/depth%d", cs.Seed, len(cs.Ops))
+	if e.scope != "" {
+		scope = e.scope
+	}
 	outcome := "ok"
 	if len(r.probs) > 0 {
 		outcome = "violation"
@@ -937,6 +952,7 @@ func run(c *core.Ctx) {
 		}
 		e.dfs(Case{Seed: seed}, depth)
 	}
+	runCatalogue(&explorer{c: c, alpha: alpha, devDepth: 0})
 	exampleGraphs(c)
 }
 
